@@ -315,6 +315,64 @@ static void gen_scenario_kv(int kind, int variant)
         }
       }
       break;
+    case 22: /* names that never reach the network: literals, canonical name, numeric service, localhost */
+      SCN_TOK(RK_GETADDRINFO, "192.0.2.22", 1, 0);
+      app_tok[ti].family   = AF_UNSPEC;
+      app_tok[ti].ai_flags = ARES_AI_CANONNAME;
+      SCN_TOK(RK_GETADDRINFO, "2001:db8::22", 1, 1000);
+      app_tok[ti].family   = AF_INET6;
+      app_tok[ti].ai_flags = ARES_AI_CANONNAME | ARES_AI_NUMERICHOST;
+      app_tok[ti].port     = 853;
+      SCN_TOK(RK_GETHOSTBYNAME, "192.0.2.23", 1, 2000);
+      app_tok[ti].family = AF_INET;
+      SCN_TOK(RK_GETADDRINFO, "localhost", 1, 3000);
+      app_tok[ti].family = AF_UNSPEC;
+      SCN_TOK(RK_GETADDRINFO, "sub.localhost", 1, 4000);
+      app_tok[ti].family = AF_INET6;
+      SCN_TOK(RK_GETNAMEINFO, "", 1, 5000);
+      app_tok[ti].family  = AF_INET;
+      app_tok[ti].addr[0] = 127; app_tok[ti].addr[3] = 1;
+      SCN_TOK(RK_SEARCH, "hidden.onion", 1, 6000);
+      break;
+    case 23: /* system configuration with every directive, environment overrides, reinit re-reading it */
+      snprintf(app_cfg.resolv_content, sizeof(app_cfg.resolv_content),
+               "# resolv.conf\nnameserver 10.9.8.7\nnameserver [fd00::53]:5353\nnameserver fe80::1%%eth0\nsearch one.test two.test three.test\n"
+               "options ndots:2 timeout:1 attempts:2 rotate edns0 use-vc\nsortlist 10.0.0.0/8 192.168.0.0/255.255.0.0\nlookup file bind\ndomain four.test\n");
+      snprintf(app_cfg.env_res_options, sizeof(app_cfg.env_res_options), "ndots:1 retrans:2 retry:3 no-rotate");
+      snprintf(app_cfg.env_localdomain, sizeof(app_cfg.env_localdomain), "env1.test env2.test");
+      snprintf(app_cfg.hosts_content, sizeof(app_cfg.hosts_content),
+               "127.0.0.1 localhost\n10.2.3.4 a23.env1.test a23\n10.2.3.5 a23.env1.test\nfd00::23 b23.env1.test b23 alias23\n# comment\n\nbad line\n");
+      snprintf(app_cfg.hostaliases_content, sizeof(app_cfg.hostaliases_content), "short23 a23.env1.test\n");
+      app_cfg.ndomains = 0;
+      snprintf(app_cfg.lookups, sizeof(app_cfg.lookups), "fb");
+      SCN_TOK(RK_GETADDRINFO, "a23", 1, 0);
+      app_tok[ti].family = AF_UNSPEC;
+      SCN_TOK(RK_SEARCH, "short23", 1, 1000);
+      gen_add_action(2000, AA_REINIT, 0, 0);
+      SCN_TOK(RK_GETHOSTBYNAME, "b23", 1, 3000);
+      app_tok[ti].family = AF_INET6;
+      SCN_TOK(RK_QUERY, "c23.example.com", 1, 4000);
+      break;
+    case 24: /* system configuration full of malformed lines between valid ones (the parser's own error unwinds) */
+      snprintf(app_cfg.resolv_content, sizeof(app_cfg.resolv_content),
+               "nameserver notanip\nnameserver 10.9.8.7\nnameserver fe80::1\nnameserver [1.2.3.4\nsearch ,\nsearch ok.test , also.test\n"
+               "options ndots:abc timeout:0 attempts:4294967297 rotate foo:bar\nsortlist 1.2.3.4/99 abc 10.0.0.0/8\nlookup garbage\nlookup bind file\n"
+               "domain\nfoo bar\n\001\002binary\n");
+      snprintf(app_cfg.env_res_options, sizeof(app_cfg.env_res_options), "ndots:x timeout:0 debug foo");
+      snprintf(app_cfg.env_localdomain, sizeof(app_cfg.env_localdomain), " , ");
+      snprintf(app_cfg.hosts_content, sizeof(app_cfg.hosts_content),
+               "notanip a24\n10.2.4.4\n10.2.4.5 bad!name a24.test\n10.2.4.6 a24.test a24\n10.2.4.6 dup24 a24\n::1 a24\n");
+      snprintf(app_cfg.hostaliases_content, sizeof(app_cfg.hostaliases_content), "onlyname\nshort24 a24.test extra words\n");
+      snprintf(app_cfg.lookups, sizeof(app_cfg.lookups), "fb");
+      snprintf(app_cfg.sortlist, sizeof(app_cfg.sortlist), "10.0.0.0/8");
+      SCN_TOK(RK_GETADDRINFO, "a24", 1, 0);
+      app_tok[ti].family = AF_UNSPEC;
+      SCN_TOK(RK_SEARCH, "short24", 1, 1000);
+      gen_add_action(2000, AA_REINIT, 0, 0);
+      gen_add_action(3000, AA_SET_SORTLIST, 0, 1);
+      SCN_TOK(RK_GETHOSTBYNAME, "dup24", 1, 4000);
+      app_tok[ti].family = AF_INET;
+      break;
     default: /* 19: many options at init, answers with many records and a CNAME chain */
       app_cfg.local_bind      = 1;
       app_cfg.udp_max_queries = 2;
